@@ -175,19 +175,22 @@ class World:
         P = self.I["tmpls"].PCode
         return P.AVATAR if f in self.U["avatars"] else P.PRIMITIVE
 
-    def _msg_full(self, f, l, p, r):
+    def _msg_full(self, r, items):
+        """ObjectUpdate for region r with one ObjectData block per (f, l, p, seq)."""
         I = self.I
         Block, Message, Vector3 = I["Block"], I["Message"], I["Vector3"]
         msg = Message(
             "ObjectUpdate",
             Block("RegionData", RegionHandle=I["HANDLES"][r], TimeDilation=123),
-            Block("ObjectData", ID=l, FullID=I["UUIDS"][f], PCode=self._pcode(f), CRC=self.seq,
-                  Scale=Vector3(0.5, 0.5, 0.5), UpdateFlags=268568894, PathCurve=16, ParentID=p, ProfileCurve=1,
-                  PathScaleX=100, PathScaleY=100, NameValue=None, TextureEntry=TEXTURE_ENTRY,
-                  TextColor=b'\x00\x00\x00\x00', ExtraParams=b'\x00', fill_missing=True))
-        msg["ObjectData"][0].serialize_var("ObjectData", (60, {
-            'Position': (1.0, 2.0, float(self.seq % 1000)), 'Velocity': (0.0, 0.0, 0.0), 'Acceleration': (0.0, 0.0, 0.0),
-            'Rotation': (0.0, 0.0, 0.0, 1.0), 'AngularVelocity': (0.0, 0.0, 0.0)}))
+            *[Block("ObjectData", ID=l, FullID=I["UUIDS"][f], PCode=self._pcode(f), CRC=seq,
+                    Scale=Vector3(0.5, 0.5, 0.5), UpdateFlags=268568894, PathCurve=16, ParentID=p, ProfileCurve=1,
+                    PathScaleX=100, PathScaleY=100, NameValue=None, TextureEntry=TEXTURE_ENTRY,
+                    TextColor=b'\x00\x00\x00\x00', ExtraParams=b'\x00', fill_missing=True)
+              for f, l, p, seq in items])
+        for blk, (f, l, p, seq) in zip(msg["ObjectData"], items):
+            blk.serialize_var("ObjectData", (60, {
+                'Position': (1.0, 2.0, float(seq % 1000)), 'Velocity': (0.0, 0.0, 0.0), 'Acceleration': (0.0, 0.0, 0.0),
+                'Rotation': (0.0, 0.0, 0.0, 1.0), 'AngularVelocity': (0.0, 0.0, 0.0)}))
         return msg
 
     def _compressed_data(self, f, l, p, crc):
@@ -198,7 +201,7 @@ class World:
             flags |= tm.CompressedFlags.PARENT_ID
         d = {"FullID": I["UUIDS"][f], "ID": l, "PCode": self._pcode(f), "State": 0, "CRC": crc,
              "Material": tm.MCode.WOOD, "ClickAction": 0, "Scale": I["Vector3"](0.5, 0.5, 0.5),
-             "Position": I["Vector3"](1.0, 2.0, float(self.seq % 1000)), "Rotation": I["Quaternion"](0, 0, 0, 1),
+             "Position": I["Vector3"](1.0, 2.0, float(crc % 1000)), "Rotation": I["Quaternion"](0, 0, 0, 1),
              "Flags": flags, "OwnerID": I["UUID"](), "ParentID": p if p else None, "ExtraParams": {},
              "PathCurve": 16, "ProfileCurve": 1, "PathBegin": 0, "PathEnd": 0, "PathScaleX": 100, "PathScaleY": 100,
              "PathShearX": 0, "PathShearY": 0, "PathTwist": 0, "PathTwistBegin": 0, "PathRadiusOffset": 0,
@@ -221,25 +224,43 @@ class World:
             reg.objects.object_cache = I["RegionViewerObjectCacheChain"](
                 [I["RegionViewerObjectCache"](I["UUID"](int=0xC0), entries)] if entries else [])
 
-    # --- one abstract action ---------------------------------------------------------------
-    def _do(self, act) -> List[str]:
+    # --- one message: one abstract action per block --------------------------------------------
+    @staticmethod
+    def batchable(a, b) -> bool:
+        """May b travel in the same message as a (as a further block)?"""
+        if a["n"] != b["n"] or a.get("r") != b.get("r"):
+            return False
+        if a["n"] == "Announce":
+            return a["kind"] == b["kind"] and a["kind"] in ("full", "compressed")
+        if a["n"] == "Touch":
+            return a["kind"] == b["kind"] == "terse"
+        return a["n"] in ("Kill", "Props")
+
+    def _do(self, acts) -> List[str]:
         I = self.I
         Block, Message = I["Block"], I["Message"]
+        act = acts[0]
         n = act["n"]
-        self.seq += 1
+        seqs = []
+        for _ in acts:
+            self.seq += 1
+            seqs.append(self.seq)
+        if len(acts) > 1 and not all(self.batchable(act, b) for b in acts[1:]):
+            raise common.MachineryError("actions cannot share a message: %r" % (acts,))
         if n == "Announce":
-            kind, f, l, p, r = act["kind"], act["f"], act["l"], act["p"], act["r"]
-            self.slot_crc[(r, l)] = self.seq
+            kind, r = act["kind"], act["r"]
+            for a, sq in zip(acts, seqs):
+                self.slot_crc[(r, a["l"])] = sq
             if kind == "full":
-                return self._deliver(self._msg_full(f, l, p, r), r)
-            data = self._compressed_data(f, l, p, self.seq)
+                return self._deliver(self._msg_full(r, [(a["f"], a["l"], a["p"], sq) for a, sq in zip(acts, seqs)]), r)
+            datas = [self._compressed_data(a["f"], a["l"], a["p"], sq) for a, sq in zip(acts, seqs)]
             if kind == "compressed":
                 return self._deliver(Message(
                     "ObjectUpdateCompressed", Block("RegionData", RegionHandle=I["HANDLES"][r], TimeDilation=1),
-                    Block("ObjectData", UpdateFlags=4096 + self.seq, Data=data)), r)
+                    *[Block("ObjectData", UpdateFlags=4096 + sq, Data=d) for d, sq in zip(datas, seqs)]), r)
             # cachedHit: the viewer object cache of the region holds (l, crc) -> compressed data
-            self._set_cache(r, [I["ViewerObjectCacheEntry"](local_id=l, crc=self.seq, data=data)])
-            errs = self._deliver(self._msg_cached(r, l, self.seq), r)
+            self._set_cache(r, [I["ViewerObjectCacheEntry"](local_id=act["l"], crc=self.seq, data=datas[0])])
+            errs = self._deliver(self._msg_cached(r, act["l"], self.seq), r)
             self._set_cache(r, [])
             return errs
         if n == "Touch":
@@ -247,19 +268,20 @@ class World:
             if kind == "terse":
                 return self._deliver(Message(
                     'ImprovedTerseObjectUpdate', Block('RegionData', RegionHandle=I["HANDLES"][r], TimeDilation=65345),
-                    Block('ObjectData', Data_={
-                        'ID': l, 'State': 0, 'FootCollisionPlane': None,
-                        'Position': I["Vector3"](-2, -3, float(self.seq % 1000)), 'Velocity': I["Vector3"](0, 0, 0),
+                    *[Block('ObjectData', Data_={
+                        'ID': a["l"], 'State': 0, 'FootCollisionPlane': None,
+                        'Position': I["Vector3"](-2, -3, float(sq % 1000)), 'Velocity': I["Vector3"](0, 0, 0),
                         'Acceleration': I["Vector3"](0, 0, 0), 'Rotation': I["Quaternion"](0, 0, 0, 1),
-                        'AngularVelocity': I["Vector3"](0, 0, 0)}, TextureEntry_=None)), r)
+                        'AngularVelocity': I["Vector3"](0, 0, 0)}, TextureEntry_=None) for a, sq in zip(acts, seqs)]), r)
             self._set_cache(r, [])
             crc = self.slot_crc.get((r, l), 0) if kind == "cachedSame" else 0x70000000 + self.seq
             return self._deliver(self._msg_cached(r, l, crc), r)
         if n == "Props":
-            return self._deliver(Message("ObjectProperties", Block(
-                "ObjectData", ObjectID=I["UUIDS"][act["f"]], Name="n%d" % self.seq, TextureID=b"", fill_missing=True)), None)
+            return self._deliver(Message("ObjectProperties", *[Block(
+                "ObjectData", ObjectID=I["UUIDS"][a["f"]], Name="n%d" % sq, TextureID=b"", fill_missing=True)
+                for a, sq in zip(acts, seqs)]), None)
         if n == "Kill":
-            return self._deliver(Message("KillObject", Block("ObjectData", ID=act["l"])), act["r"])
+            return self._deliver(Message("KillObject", *[Block("ObjectData", ID=a["l"]) for a in acts]), act["r"])
         if n == "Track":
             st, r = impl_call(self.session.objects.track_region_objects, I["HANDLES"][act["r"]])
             return [] if st == "ok" else [r]
@@ -277,10 +299,12 @@ class World:
         raise common.MachineryError("unknown action %r" % (act,))
 
     async def step(self, act) -> dict:
+        """Deliver one message (act: one action, or a list of actions = blocks of one message), let the event
+        loop run, report what happened."""
         before = {k: f for k, f in self.futs.items() if not f.done()}
         self.killed.clear()
         _CAP.excs.clear()
-        errs = self._do(act)
+        errs = self._do(act if isinstance(act, list) else [act])
         for _ in range(3):
             await asyncio.sleep(0)
         errs = errs + list(_CAP.excs)
@@ -387,24 +411,15 @@ def compare_step(o, pending, out) -> List[Tuple[str, Any, Any]]:
     return bad
 
 
-def classify(src, act, bad, target=None) -> dict:
-    """Labels for known_findings matching.  `src` is the Spec state before the step ([objs, tracked,
-    pending] as exported, or None for B2), `bad` the failed clauses.  Labels only, no verdicts."""
+def classify(act, bad, tags, after) -> dict:
+    """Features of a failing case for known_findings matching: the first failed clause, the action, and the
+    triage labels TLC attached to the failing step (`tags`) and to the steps before it (`after`)."""
     clause = bad[0][0]
-    feat = {"clause": clause, "act": act["n"]}
+    feat = {"clause": clause, "act": act["n"], "tags": sorted(tags), "after": sorted(after)}
     if "kind" in act:
         feat["msg"] = act["kind"]
     if clause == "raised":
         feat["exc"] = str(bad[0][2][0]).split(":")[0] if bad[0][2] else "?"
-    if src is not None:
-        objs, tracked = src[0], src[1]
-        f = act.get("f")
-        if f is not None and objs[f][0] != 0:
-            target = "tracked-region" if objs[f][2] in tracked else "regionless"
-        elif f is not None:
-            target = "unknown-fullid"
-    if target not in (None, "-"):
-        feat["target"] = target
     return feat
 
 
@@ -420,11 +435,12 @@ class CGraph:
         self.key2id: Dict[str, int] = {}
         self.states: List[Any] = []
         self.sobs: List[Any] = []
-        self.edges: List[Tuple[int, dict, int, dict]] = []
+        self.edges: List[Tuple[int, dict, int, dict, tuple]] = []
         self.init: Optional[int] = None
         self._seen = set()
         self._acts: Dict[str, dict] = {}
         self._outs: Dict[str, dict] = {}
+        self._tags: Dict[tuple, tuple] = {}
 
     def feed(self, line: str):
         try:
@@ -442,7 +458,8 @@ class CGraph:
             return
         self._seen.add(ek)
         ok = json.dumps(r["o"], sort_keys=True)
-        self.edges.append((s, self._acts.setdefault(ak, r["a"]), d, self._outs.setdefault(ok, r["o"])))
+        self.edges.append((s, self._acts.setdefault(ak, r["a"]), d, self._outs.setdefault(ok, r["o"]),
+                           self._tags.setdefault(tuple(sorted(r["t"])), tuple(sorted(r["t"])))))
 
     def finish(self):
         if self.init is None:
@@ -551,19 +568,20 @@ _U: Optional[dict] = None
 
 async def _canonical(g, U, ei):
     """Replay of one edge from a fresh world along the BFS-tree path: the shortest history."""
-    s, act, d, o = g.edges[ei]
+    s, act, d, o, tags = g.edges[ei]
     w = World(U)
-    hist = []
+    hist, after = [], set()
     for pe in g.path_to(s):
         await w.step(g.edges[pe][1])
         hist.append(g.edges[pe][1])
+        after |= set(g.edges[pe][4])
     if compare_state(g.sobs[s], w.observe()):
         w.close()
         return None
     out = await w.step(act)
     bad = compare_step(o, g.states[d][2], out) + compare_state(g.sobs[d], w.observe())
     w.close()
-    return (hist + [act], bad) if bad else None
+    return (hist + [act], bad, after) if bad else None
 
 
 async def _replay_async(walks):
@@ -571,9 +589,9 @@ async def _replay_async(walks):
     fails, steps, skipped = [], 0, 0
     for walk in walks:
         w = World(U)
-        hist = []
+        hist, after = [], set()
         for k, ei in enumerate(walk):
-            s, act, d, o = g.edges[ei]
+            s, act, d, o, tags = g.edges[ei]
             out = await w.step(act)
             hist.append(act)
             steps += 1
@@ -581,12 +599,13 @@ async def _replay_async(walks):
             if bad:
                 short = await _canonical(g, U, ei)
                 if short is not None:
-                    hist, bad = short
+                    hist, bad, after = short
                 fails.append({"history": hist, "failed": [list(b) for b in bad[:4]],
                               "shortest_path_reproduces": short is not None,
-                              "features": classify(g.states[s], act, bad)})
+                              "features": classify(act, bad, tags, after)})
                 skipped += len(walk) - k - 1
                 break
+            after |= set(tags)
         w.close()
     return fails, steps, skipped
 
@@ -634,6 +653,64 @@ def _export(chk: Check, cfg_text: str, label: str) -> CGraph:
     return g
 
 
+def _situations(g: CGraph) -> Dict[str, int]:
+    """How often the exported model exercises each situation the property names (vacuity guard).  Read off
+    TLC's own source / target states, outputs and labels; nothing is recomputed here."""
+    c: Dict[str, int] = {}
+
+    def hit(k):
+        c[k] = c.get(k, 0) + 1
+    for s, act, d, o, tags in g.edges:
+        src, dst = g.states[s], g.states[d]
+        for t in tags:
+            hit("tag:" + t)
+        n = act["n"]
+        if n == "Announce":
+            f = act["f"]
+            before, after = src[0][f], dst[0][f]
+            if before[0] == 0:
+                hit("announce.new" if after[0] else "announce.ignored")
+            elif before == after:
+                hit("announce.same-identity")
+            elif before[2] != after[2]:
+                hit("announce.region-change" + ("" if after[2] in dst[1] else ".to-regionless")
+                    + ("" if before[2] in src[1] else ".from-regionless"))
+            elif before[0] != after[0]:
+                hit("announce.local-id-change")
+            else:
+                hit("announce.reparent")
+            kids_after = [x for x in g.sobs[d]["links"] if x[0] == f]
+            kids_before = [x for x in g.sobs[s]["links"] if x[0] == f]
+            if kids_after and kids_after[0][2] and (not kids_before or before[:1] + before[2:] != after[:1] + after[2:]):
+                hit("announce.adopts-orphans")
+            if kids_after and kids_after[0][1] == "-" and after[1] != 0:
+                hit("announce.becomes-orphan")
+        if n == "Kill":
+            hit("kill.victims=%d" % min(len(o["killed"]), 3))
+            if o["killed"] and len(g.sobs[d]["sess"]) + len(o["killed"]) == len(g.sobs[s]["sess"]) and any(
+                    x[1] == "-" and [y for y in g.sobs[s]["links"] if y[0] == x[0] and y[1] in o["killed"]]
+                    for x in g.sobs[d]["links"]):
+                hit("kill.spares-avatar-child")
+        if n == "Teardown" and len(g.sobs[d]["sess"]) < len(g.sobs[s]["sess"]):
+            hit("teardown.unloads-objects")
+        if o["resolved"]:
+            hit("request.resolved-by:" + n + ":" + act.get("kind", ""))
+        if o["cancelled"]:
+            hit("request.cancelled-by:" + n)
+    return c
+
+
+REQUIRED_SITUATIONS = [
+    "announce.new", "announce.ignored", "announce.same-identity", "announce.region-change",
+    "announce.region-change.to-regionless", "announce.region-change.from-regionless", "announce.local-id-change",
+    "announce.reparent", "announce.adopts-orphans", "announce.becomes-orphan", "kill.victims=0", "kill.victims=1",
+    "kill.victims=2", "kill.spares-avatar-child", "teardown.unloads-objects", "tag:target-regionless",
+    "tag:cachedHit-known-fullid", "tag:kill-untracked-parent-of-avatar", "tag:cancels-requests",
+    "request.resolved-by:Announce:full", "request.resolved-by:Announce:compressed", "request.resolved-by:Announce:cachedHit",
+    "request.resolved-by:Touch:terse", "request.resolved-by:Touch:cachedSame", "request.resolved-by:Props:",
+    "request.cancelled-by:Announce", "request.cancelled-by:Kill", "request.cancelled-by:Teardown"]
+
+
 def _b1(chk: Check, U, akinds, tkinds, reqlocals, label, depth=99, maxlen=60):
     global _G, _U
     g = _export(chk, _mbt_cfg(U, akinds, tkinds, reqlocals, depth), label)
@@ -658,12 +735,15 @@ def _b1(chk: Check, U, akinds, tkinds, reqlocals, label, depth=99, maxlen=60):
     if skipped:
         chk.cov["b1_steps_skipped_after_divergence"] = chk.cov.get("b1_steps_skipped_after_divergence", 0) + skipped
     acts: Dict[str, int] = {}
-    for s, act, d, o in g.edges:
+    for s, act, d, o, _t in g.edges:
         k = act["n"] + ":" + act.get("kind", act.get("ty", ""))
         acts[k] = acts.get(k, 0) + 1
         if s != d or o["killed"] or o["resolved"] or o["cancelled"]:
             chk.nontrivial(("edge", label, s, d))
     chk.cov.setdefault("b1_edges_by_action", {})[label] = acts
+    sit = chk.cov.setdefault("b1_situations", {})
+    for k, v in _situations(g).items():
+        sit[k] = sit.get(k, 0) + v
     e = g.edges[min(len(g.edges) - 1, 4321)]
     chk.sample({"binding": "B1 edge replay", "history": [g.edges[p][1] for p in g.path_to(e[0])] + [e[1]],
                 "expected_outputs": e[3], "expected_observation": g.sobs[e[2]]})
@@ -830,7 +910,9 @@ def _act_of(ev):
 
 
 def _event(act, obs, i):
-    ev = {"ev": act["n"], "i": i, "obs": obs}
+    ev = {"ev": act["n"], "i": i}
+    if obs is not None:
+        ev["obs"] = obs
     for k, nk in ACTKEYS:
         if k in act:
             ev[nk] = act[k]
@@ -849,11 +931,23 @@ async def _walks_async(jobs):
             if act is None:
                 continue
             sim.apply(act)
-            out = await w.step(act)
+            batch = [act]
+            if act["n"] in ("Announce", "Kill", "Touch", "Props") and rng.random() < 0.3:
+                # further blocks of the same message: handled back to back, the loop does not run in between
+                for _ in range(rng.randrange(1, 4)):
+                    for _try in range(8):
+                        more = sim.choose()
+                        if more is not None and World.batchable(act, more):
+                            sim.apply(more)
+                            batch.append(more)
+                            break
+            out = await w.step(batch)
             obs = w.observe()
             obs.update(out)
             del obs["raised_detail"]
-            evs.append(_event(act, obs, len(evs)))
+            for blk in batch[:-1]:
+                evs.append(_event(blk, None, len(evs)))
+            evs.append(_event(batch[-1], obs, len(evs)))
         w.close()
         traces.append(evs)
     return traces
@@ -868,13 +962,26 @@ def _trace_cfg(U):
     return ("SPECIFICATION TraceSpec\nCONSTANTS %s\nPOSTCONDITION TraceAccepted\nCHECK_DEADLOCK FALSE\n" % _consts(U))
 
 
-def _b2(chk: Check, U, n_walks, length, label):
+def _b2(chk: Check, U, n_walks, length, label, shards=common.NCPU):
     jobs = [(U, chk.rng.getrandbits(48), length) for _ in range(n_walks)]
     parts = common.parallel_map(_walks_chunk, common.chunked(jobs, common.NCPU))
     traces = [t for p in parts for t in p]
+    _judge(chk, U, traces, label, shards)
+    for i, t in enumerate(traces):
+        kills = sum(1 for e in t if e["ev"] == "Kill" and e.get("obs", {}).get("killed"))
+        if kills >= 2 and any(e["ev"] == "Teardown" for e in t):
+            chk.nontrivial(("walk", label, i))
+    chk.cov["b2_multi_block_messages"] = chk.cov.get("b2_multi_block_messages", 0) + sum(
+        1 for t in traces for j, e in enumerate(t) if "obs" in e and j and "obs" not in t[j - 1])
+    chk.sample({"binding": "B2 trace (first events)", "events": common._clip(traces[0][:3])})
+
+
+def _judge(chk: Check, U, traces, label, shards):
+    """TLC validates the recorded traces; every failing trace becomes a violation with its first failing event."""
     acc, rej, results = common.validate_traces("SceneGraph_Trace", _trace_cfg(U), traces, chk.scratch,
-                                               shards=common.NCPU, tag="sg")
+                                               shards=shards, tag="sg")
     fails: Dict[int, List[dict]] = {}
+    notes: Dict[int, List[dict]] = {}
     for r in results:
         chk.add_tlc(r, "SceneGraph_Trace " + label)
         if r.assert_failed:
@@ -882,6 +989,8 @@ def _b2(chk: Check, U, n_walks, length, label):
         for rec in r.printed():
             if isinstance(rec, dict) and "fail" in rec:
                 fails.setdefault(rec["tid"], []).append(rec)
+            elif isinstance(rec, dict) and "note" in rec:
+                notes.setdefault(rec["tid"], []).append(rec)
     chk.cov["traces_validated_against_impl"] += len(traces)
     chk.cov["b2_events"] = chk.cov.get("b2_events", 0) + sum(len(t) for t in traces)
     chk.count(sum(len(t) for t in traces))
@@ -891,8 +1000,12 @@ def _b2(chk: Check, U, n_walks, length, label):
     for tid, fl in sorted(fails.items()):
         fl.sort(key=lambda r: (r["line"], CLAUSES.index(r["fail"]) if r["fail"] in CLAUSES else 99))
         first = [r for r in fl if r["line"] == fl[0]["line"]]
-        ev = traces[tid][first[0]["i"]]
+        at = first[0]["i"]
+        ev = traces[tid][at]
         act = _act_of(ev)
+        nblocks = 1
+        while at - nblocks >= 0 and "obs" not in traces[tid][at - nblocks]:
+            nblocks += 1
         bad = []
         for r in first:
             got = ev["obs"].get(OBSKEY.get(r["fail"], r["fail"]))
@@ -904,22 +1017,61 @@ def _b2(chk: Check, U, n_walks, length, label):
             elif isinstance(exp, list):
                 exp = _norm(exp)
             bad.append((r["fail"], exp, got))
-        feat = dict(classify(None, act, bad, first[0].get("tgt")), kind="b2")
+        after = set(t for nrec in notes.get(tid, []) if nrec["i"] <= at - nblocks for t in nrec["note"])
+        tags = set(first[0].get("tags", [])) | set(
+            t for nrec in notes.get(tid, []) if at - nblocks < nrec["i"] < at for t in nrec["note"])
+        feat = dict(classify(act, bad, tags, after), kind="b2", blocks=nblocks)
         chk.violation("B2 %s: %s differs from specification after %s" % (label, feat["clause"], feat["act"]), feat,
-                      {"event_index": first[0]["i"], "failed": [list(b) for b in bad[:4]],
-                       "history": [_act_of(e) for e in traces[tid][:first[0]["i"] + 1]]})
-    for i, t in enumerate(traces):
-        kills = sum(1 for e in t if e["ev"] == "Kill" and e["obs"]["killed"])
-        if kills >= 2 and any(e["ev"] == "Teardown" for e in t):
-            chk.nontrivial(("walk", label, i))
-    chk.sample({"binding": "B2 trace (first events)", "events": common._clip(traces[0][:3])})
+                      {"event_index": at, "failed": [list(b) for b in bad[:4]],
+                       "history": [dict(_act_of(e), same_message_as_next=True) if "obs" not in e else _act_of(e)
+                                   for e in traces[tid][:at + 1]]})
+    return fails
+
+
+async def _run_history(U, messages):
+    w = World(U)
+    evs = []
+    for batch in messages:
+        out = await w.step(batch)
+        obs = w.observe()
+        obs.update(out)
+        del obs["raised_detail"]
+        for blk in batch[:-1]:
+            evs.append(_event(blk, None, len(evs)))
+        evs.append(_event(batch[-1], obs, len(evs)))
+    w.close()
+    return evs
+
+
+def replay(chk: Check, r: dict):
+    """./check C14 --replay <file>: run the recorded history on the real code again and let TLC judge every step."""
+    _install_logging()
+    hist = (r.get("detail") or {}).get("history")
+    if not hist:
+        raise common.MachineryError("replay file has no history")
+    messages, cur = [], []
+    for a in hist:
+        a = dict(a)
+        more = a.pop("same_message_as_next", False)
+        cur.append(a)
+        if not more:
+            messages.append(cur)
+            cur = []
+    if cur:
+        messages.append(cur)
+    evs = asyncio.run(_run_history(U5, messages))
+    for e in evs:
+        o = e.get("obs")
+        print(_act_of(e), "->", {k: v for k, v in o.items() if v} if o else "(same message continues)")
+    _judge(chk, U5, [evs], "replay", 1)
 
 
 # ------------------------------------------------------------------------------------------
 
 U2 = {"full": ["a", "b"], "avatars": ["b"], "locals": [1, 2, 3], "init": ["R1"], "maxpending": 0}
 U2P = dict(U2, maxpending=1)
-U2S = {"full": ["a", "b"], "avatars": ["b"], "locals": [1, 2], "init": ["R1"], "maxpending": 2}
+U2S = {"full": ["a", "b"], "avatars": ["b"], "locals": [1, 2], "init": ["R1"], "maxpending": 2,
+       "trackable": ["R1"], "unknown": ["R3"]}
 U3 = {"full": ["a", "b", "c"], "avatars": ["b"], "locals": [1, 2, 3], "init": ["R1"], "maxpending": 0}
 U5 = {"full": ["a", "b", "c", "d", "e"], "avatars": ["b", "e"], "locals": [1, 2, 3, 4], "init": ["R1"], "maxpending": 4}
 AK = ["full", "compressed", "cachedHit"]
@@ -945,18 +1097,29 @@ def run(chk: Check):
         "an object announced for an untracked handle stays in the session-wide index only (pinned by "
         "tests/proxy/test_object_manager.py::test_object_moved_to_bad_region)",
     ]
+    U2L = dict(U2, locals=[1, 2])
+    U3R = dict(U3, trackable=["R1"], unknown=[])
     if chk.tier == "quick":
-        _mc(chk, U2, 99, "2obj")
-        _mc(chk, U2S, 99, "2obj-2loc-requests")
-        _b1(chk, U2, ["full"], TK, [], "2obj-full")
-        _b1(chk, dict(U2, locals=[1, 2]), ["compressed", "cachedHit"], ["cachedSame"], [], "2obj-2loc-compressed-cached")
-        _b1(chk, U2S, AK, TK, [1, 2], "2obj-2loc-requests", )
-        _b1(chk, dict(U3, trackable=["R1"], unknown=[]), AK, TK, [], "3obj-1region")
-        _b2(chk, U5, 160, 60, "5obj")
+        plan = [("mc", _mc, (U2, 99, "2obj")),
+                ("mc", _mc, (U2S, 99, "2obj-2loc-requests")),
+                ("b1", _b1, (U2, ["full"], TK, [], "2obj-full")),
+                ("b1", _b1, (U2L, ["compressed", "cachedHit"], ["cachedSame"], [], "2obj-2loc-compressed-cached")),
+                ("b1", _b1, (U2S, AK, TK, [1, 2], "2obj-2loc-requests")),
+                ("b1", _b1, (U3R, AK, TK, [], "3obj-1region")),
+                ("b2", _b2, (U5, 160, 60, "5obj"))]
     else:
-        _mc(chk, U2P, 99, "2obj")
-        _mc(chk, U3, 5, "3obj d5")
-        _b1(chk, U2P, AK, TK, [1, 2, 3], "2obj-all")
-        _b1(chk, U3, AK, TK, [], "3obj-all")
-        _b2(chk, U5, 1500, 80, "5obj")
+        plan = [("mc", _mc, (U2P, 99, "2obj-requests")),
+                ("mc", _mc, (U3, 5, "3obj d5")),
+                ("b1", _b1, (U2P, AK, TK, [1, 2, 3], "2obj-all")),
+                ("b1", _b1, (dict(U3, trackable=["R1"]), AK, TK, [], "3obj-R1-R3")),
+                ("b2", _b2, (U5, 1500, 80, "5obj"))]
+    only = [x for x in os.environ.get("C14_ONLY", "").split(",") if x]      # development aid: mc,b1,b2 or a label
+    for kind, fn, args in plan:
+        if only and kind not in only and args[-1] not in only:
+            continue
+        fn(chk, *args)
+    if not only:
+        missing = [k for k in REQUIRED_SITUATIONS if not chk.cov.get("b1_situations", {}).get(k)]
+        if missing:
+            raise common.MachineryError("the exported models never exercise: %s" % ", ".join(missing))
     chk.cov["exhaustive"] = True
